@@ -216,7 +216,7 @@ def pelt_l2_columns_end_to_end_stream(ctx, count):
                      f"{mt['impl_changepoints']} / scores bit for bit)", mt, {"what": "float-end-to-end-mismatch", "detector": "PELT"})
 
 
-def _from_data(ctx, case_type, terms2, metas2, what, tag, premise=True):
+def _from_data(ctx, case_type, terms2, metas2, what, tag, premise=True, premise_header=None):
     """the univariate CUSUM cases once more WITHOUT the score table: Coq computes the scores with the binary64 kernel twin cusum_F from the data (Check/FloatRunCheck.v) and must
     reproduce the detector; the premise cusum_trace_ok of the kernel's refinement theorem is evaluated on every cut the detector read"""
     if not terms2:
@@ -224,8 +224,8 @@ def _from_data(ctx, case_type, terms2, metas2, what, tag, premise=True):
     for _ in terms2:
         ctx.count("float_stream", "from-data:" + what)
     if premise:
-        noprem = coq_bad_cases(ctx.cid, HEADER_RUN, case_type, case_type.replace("_case", "_case_premise"), terms2, shard=30, tag=tag + "prem")
-        ctx.notes[f"binary64_from_data_premise({what})"] = f"the boolean premise of the binary64 CUSUM end-to-end theorems (every cut read stays in the normal range, finite threshold) holds in {len(terms2) - len(noprem)} of {len(terms2)} cases"
+        noprem = coq_bad_cases(ctx.cid, premise_header or HEADER_RUN, case_type, case_type.replace("_case", "_case_premise"), terms2, shard=30, tag=tag + "prem")
+        ctx.notes[f"binary64_from_data_premise({what})"] = f"the boolean premise of the binary64 end-to-end theorems (every kernel evaluation read stays in the normal range, finite threshold) holds in {len(terms2) - len(noprem)} of {len(terms2)} cases"
     for i in coq_bad_cases(ctx.cid, HEADER_RUN, case_type, case_type.replace("_case", "_case_ok"), terms2, shard=30, tag=tag)[:20]:
         mt = metas2[i]
         ctx.mismatch(f"{what} on one float column (n={mt['n']}, threshold={mt['threshold']!r}): the binary64 kernel twin followed by the generic search loop on primitive floats "
@@ -411,7 +411,7 @@ def cbs_float_stream(ctx, count):
         ctx.case({"float": "cbs", "it": it, "n": n, "m": m, "score": name, "x0": float(Xn[0, 0])}, nontrivial=len(anoms) > 0,
                  sample={"stream": "binary64-table CircularBinarySegmentation", "score": name, "n": n, "m": m, "n_intervals": len(ivs), "impl_anomalies": anoms})
         ctx.count("float_stream", "cbs:" + name)
-    _from_data(ctx, "fcbs2_case", terms2, metas2, "CircularBinarySegmentation(LocalAnomalyScore(L2Cost))", "fcbs2", premise=False)
+    _from_data(ctx, "fcbs2_case", terms2, metas2, "CircularBinarySegmentation(LocalAnomalyScore(L2Cost))", "fcbs2", premise_header=HEADER_RUN.replace("Check.FloatRunCheck.", "Check.FloatRunCheck Check.FloatRunCheck2."))
     bad = coq_bad_cases(ctx.cid, HEADER, "fcbs_case", "fcbs_any_case_ok", terms, shard=20, tag="fcbs")
     _spec_all(ctx, metas, bad, lambda mt: _cbs_spec(mt, mt["_rows"], mt["_inner"], mt["_max"]), "CircularBinarySegmentation",
               lambda mt: f"CircularBinarySegmentation({mt['score']}) on float data (n={mt['n']}, m={mt['min_segment_length']}, p={mt['p']}, {mt['data']})")
